@@ -68,6 +68,9 @@ func PathValues(p protopath.Path, m proto.Message) (protopath.Values, error) {
 				return protopath.Values{}, fmt.Errorf("%d: cursor descriptor %T is not a map", i, fd)
 			}
 			// If MapIndex is the wrong type for Map, we can't detect that and this will panic.
+			// The value under a map key is described by the map field's value descriptor (for message
+			// values, the value message type), not by the synthetic map-entry message.
+			desc = fd.MapValue()
 			cursor = cursor.Map().Get(step.MapIndex())
 			if !cursor.IsValid() {
 				return protopath.Values{}, fmt.Errorf("%d: cursor map missing key %v", i, step.MapIndex())
